@@ -7,18 +7,34 @@ references, k-cycles, diamonds); run identifiers equal / prefix-extended / unrel
 missing, written with raw h5py in every HDF5 string flavour; locations absolute / sibling name /
 dangling / URL / spelled relative or absolute paths (`./`, `sub/../`, `../dir/`, symlinked
 directory or file); definitions of type file / remote / internal / unknown with every format
-string (matching or not).  Every world is a history within one process: up to four roots opened
-locally in random order and one through `RTDC_HTTP` (in-process fake session serving the same
-bytes, fake socket for the availability probe); each observation is compared with the
-history-free model.  Observed:
-`features_basin`, `feat in ds`, the data tokens of every feature, the files / URLs handed to
-`h5py.File` (wrapped from outside), the fake session's request log, wall clock.
+string (matching or not).  About a fifth of the files are basin-only *relays* (no events of their
+own, mostly without the 'experiment:event count' attribute: everything incl. their length comes
+through their basins), a tenth ordinary files without event count.  Every world is a history
+within one process: up to four roots opened locally in random order, one through `RTDC_HTTP` and
+one through `RTDC_S3` (in-process fake requests session and fake boto3 object store serving the
+same bytes — dclab's own HTTPFile / S3File / availability probes run unchanged on top —, fake
+socket); each observation is compared with the history-free model.  Observed:
+`ds.basins` (order, public attributes), `features_basin`, `feat in ds`, the data tokens of every
+feature, histories of `verify_basin` calls on the basin objects (and on basin objects built
+directly with the documented constructor: negative answers), the files / URLs handed to
+`h5py.File` (wrapped from outside), the fake session's / object store's request log, wall clock
+and CPU time.
 
 Decision: (1) property oracles evaluated directly in Python — a remote root never opens a local
 path; served data is the data of some *permitted* path of definitions (identifier match on every
 hop, type = class type, local paths only from local datasets), composed maps applied; nothing
-raises; bounded time — and (2) exact comparison of features / data with the Lean model
-`Basin.resolve` (priority order, ignored keys, path resolution), opened datasets ⊆ model.
+raises; bounded time and bounded number of opened datasets — and (2) exact comparison of features /
+data with the Lean model `Basin.resolve` (priority order, ignored keys, path resolution), of the
+order of `ds.basins` with `basinOrder`, of `verify_basin` histories with `runVerifyBasin`;
+opened datasets ⊆ model.  `translate()` regenerates `Gen/BasinTable.lean` (registered basin
+classes per format, priority key characters) from the imported dclab.
+
+Private seams used (each degrades to a NOTE, never to a verdict, when it is gone): module names
+`boto3` / `socket` of `dclab.rtdc_dataset.fmt_s3` (otherwise S3 is treated as unreachable, as
+before session 4); everything else is public API (`ds.basins`, `Basin.basin_format/basin_type/
+mapping/location/verify_basin`, `get_basin_classes`, `basin_priority_sorted_key`,
+`RTDCBase.ignore_basins`).  `VERIF_NO_WALL_GUARD=1` disables the wall budget (full seeded case
+list on a loaded machine).
 """
 import copy
 import itertools
@@ -38,19 +54,28 @@ from . import common, gen
 ID = "C14"
 LEAN_MODULES = ["DclabModel.Properties.C14"]
 RULE = ("quick: 6 targeted worlds (remote/internal definition with local path, basin without "
-        "identifier unmapped/mapped, mapped-then-unmapped histories) + seeded random worlds over 2-6 "
-        "files, 0-3 definitions per file drawn from type x format x location (incl. spelled paths "
+        "identifier unmapped/mapped, mapped-then-unmapped histories) + 250 seeded random worlds over "
+        "2-6 files (20 % basin-only relay files without events, 75 % of those and 10 % of the others "
+        "without event count), 0-3 definitions per file drawn from type x format (http / s3 "
+        "reachable) x location (incl. spelled paths "
         "and symlinks) x feature-list x mapping, identifiers from {equal, prefix, unrelated, empty, "
-        "missing} x 6 HDF5 string flavours; each world opened as a history of up to 4 local roots "
-        "and one RTDC_HTTP root in one process. "
+        "missing} x 6 HDF5 string flavours; each world opened as a history of up to 4 local roots, "
+        "one RTDC_HTTP root and one RTDC_S3 root in one process; per root the order of ds.basins and "
+        "a history of 3 verify_basin calls on up to 4 basin objects, per world 2 directly "
+        "constructed file-type basin objects (any referrer/target pair, mapped or not, dangling "
+        "15 %) with a history of 3 verify_basin calls. "
         "thorough: additionally every directed graph (incl. self loops) over <= 3 files with "
         "file-type definitions. A case is non-trivial when at least one definition is followed; "
         "distinct = distinct canonical (world, root) pairs.")
 TRUSTED_BASE = [
-    "modelled, not verified: h5py/HDF5, json, pathlib.exists, the in-process fake requests session "
-    "and fake socket (availability probe of HTTPBasin); S3 / DCOR endpoints are unreachable in the "
-    "sandbox and modelled as unavailable (their basin classes are remote-type: theorem "
-    "remote_never_local covers them by construction)",
+    "modelled, not verified: h5py/HDF5, json, pathlib.exists, the in-process fake requests session, "
+    "fake socket (availability probes of HTTPBasin / S3Basin) and fake boto3 Session/resource/"
+    "Object (content_length, e_tag, load, ranged get) underneath dclab's own S3File; DCOR "
+    "endpoints are unreachable in the sandbox and modelled as unavailable (remote-type class: "
+    "theorem remote_never_local covers it by construction); when the boto3/socket seam of fmt_s3 "
+    "is missing S3 is treated the same way (NOTE)",
+    "Gen/BasinTable.lean is regenerated by translate() from get_basin_classes() and "
+    "basin_priority_sorted_key(); the generator is trusted, tables_match_source is kernel-checked",
     "basin keys are md5 hashes of the definition text (hashobj), assumed collision free"]
 ASSUMPTIONS = [
     "mapped definitions come with their basinmap feature stored in the referrer and maps valid for "
@@ -63,7 +88,14 @@ ASSUMPTIONS = [
 NOT_PROVED = [
     "real sockets, S3/DCOR authentication, timing of the availability-check threads",
     "exact laziness of opening basin datasets: observed opened datasets are compared by inclusion "
-    "in the model's set (exact for features and data)"]
+    "in the model's set (exact for features, data, the order of ds.basins and verify_basin answers)",
+    "a resource bound on the number of opened datasets: 'opens <= distinct definitions' is false "
+    "(opens_not_bounded_by_definitions, findings/C14-diamond-opens.md); only depth <= #keys + 1 "
+    "is proved, the harness enforces <= 400 opens per observation of a <= 6 file world",
+    "the witnesses F14 / F70 / opens_not_bounded_by_definitions are stated on the unrolled step "
+    "function (resolveStep / resolveN), not on the well-founded `resolve` (decide does not reduce it)",
+    "_get_length() of datasets without event count (derived from features / basins) is exercised "
+    "by the relay files but not modelled (no length in the model)"]
 
 FEATS = ["pos_x", "pos_y", "size_x", "size_y"]
 KEEP = "frame"
@@ -73,6 +105,66 @@ UNIV = range(0, 400)
 HOST = "http://verif.invalid"
 TYPES = ["file", "remote", "internal", "peter"]
 FORMATS = ["h5dataset", "hdf5", "http", "s3", "dcor", "xyz"]
+
+
+GEN_PATH = common.LEAN_DIR / "DclabModel" / "Gen" / "BasinTable.lean"
+
+
+def translate():
+    """regenerate lean/DclabModel/Gen/BasinTable.lean from the imported dclab: which basin class
+    (storage type) is registered for each format string, and the characters
+    `basin_priority_sorted_key` assigns to types and formats.  `tables_match_source`
+    (Properties/C14.lean) proves that the model's `classType`, `typeRank`, `formatRank` and the
+    key layout agree with these tables."""
+    common.import_dclab()
+    from dclab.rtdc_dataset import feat_basin
+    bc = feat_basin.get_basin_classes()
+    model_formats = FORMATS[:5]
+    type_id = {"internal": 0, "file": 1, "remote": 2}
+    class_ids = [type_id.get(getattr(bc.get(fm), "basin_type", None), 9) for fm in model_formats]
+    extra = sorted(k for k in bc if k not in model_formats)
+    key = feat_basin.basin_priority_sorted_key
+
+    def kk(ty, fm, mp="same"):
+        return key({"type": ty, "format": fm, "mapping": mp})
+
+    type_codes = [ord(kk(t, "hdf5")[0]) for t in ("internal", "file", "remote", "peter")]
+    format_codes = [ord(kk("file", fm)[1]) for fm in model_formats + ["xyz"]]
+    maps = ["same"] + [f"basinmap{i}" for i in range(10)]
+    tails = [kk("file", "hdf5", m)[2:] for m in maps]
+    layout = (all(len(kk(t, fm)) == 3 for t in ("internal", "file", "remote", "peter")
+                  for fm in model_formats + ["xyz"])
+              and tails == sorted(tails) and len(set(tails)) == len(tails)
+              and key({"type": "file", "format": "hdf5"}) == kk("file", "hdf5"))
+    text = f"""/-!
+GENERATED by harness/c14.py:translate from dclab.rtdc_dataset.feat_basin (get_basin_classes,
+basin_priority_sorted_key) -- do not edit.
+-/
+namespace DclabModel.Gen.BasinTable
+
+/-- per format string (h5dataset, hdf5, http, s3, dcor): storage type of the registered basin class
+(0 internal, 1 file, 2 remote; 9 = no class registered) -/
+def classTypeIds : List Nat := {class_ids}
+
+/-- number of registered basin formats the model does not know: {extra} -/
+def extraFormats : Nat := {len(extra)}
+
+/-- code point of the first key character for the types internal, file, remote, <anything else> -/
+def typeKeyCodes : List Nat := {type_codes}
+
+/-- code point of the second key character for the formats h5dataset, hdf5, http, s3, dcor,
+<anything else> -/
+def formatKeyCodes : List Nat := {format_codes}
+
+/-- the key is type character ++ format character ++ mapping part, the mapping parts of
+same, basinmap0 .. basinmap9 are distinct and increase in this order, a missing mapping counts as
+same -/
+def keyLayoutOK : Bool := {"true" if layout else "false"}
+
+end DclabModel.Gen.BasinTable
+"""
+    if not GEN_PATH.exists() or GEN_PATH.read_text() != text:
+        GEN_PATH.write_text(text)
 
 
 def L(xs):
@@ -128,10 +220,60 @@ class TooManyOpens(BaseException):
 OPEN_LIMIT = 400
 
 
-class Env:
-    """fake session + fake socket + h5py.File wrapper"""
+class _FakeS3Object:
+    """what `boto3.resource("s3").Object(bucket, key)` offers to dclab's S3File: lazy header
+    attributes, `load()`, ranged `get()`; bytes come from the fake session's blob table"""
 
-    def __init__(self):
+    def __init__(self, env, bucket_name, key):
+        self.env = env
+        self.url = f"{HOST}/{bucket_name}/{key}"
+
+    def _blob(self):
+        import botocore.exceptions
+        self.env.ses.log.append((self.url, "s3"))
+        blob = self.env.ses.blobs.get(self.url)
+        if blob is None:
+            raise botocore.exceptions.ClientError(
+                {"Error": {"Code": "404", "Message": "Not Found"}}, "HeadObject")
+        return blob
+
+    def load(self):
+        self._blob()
+
+    @property
+    def content_length(self):
+        return len(self._blob())
+
+    @property
+    def e_tag(self):
+        return '"verif-s3-etag-%d"' % len(self._blob())
+
+    def get(self, Range=None, **kw):
+        import io
+        blob = self._blob()
+        if Range:
+            a, b = Range.split("=")[1].split("-")
+            blob = blob[int(a):int(b) + 1]
+        return {"Body": io.BytesIO(blob)}
+
+
+class _FakeBoto3Session:
+    def __init__(self, env, *a, **k):
+        self.env = env
+
+    def client(self, *a, **k):
+        return types.SimpleNamespace(close=lambda: None)
+
+    def resource(self, *a, **k):
+        env = self.env
+        return types.SimpleNamespace(
+            Object=lambda bucket_name, key: _FakeS3Object(env, bucket_name, key))
+
+
+class Env:
+    """fake session + fake socket + fake S3 object store + h5py.File wrapper"""
+
+    def __init__(self, ctx=None):
         dclab = common.import_dclab()
         import h5py
         from dclab import http_utils
@@ -144,25 +286,88 @@ class Env:
             gaierror=socket.gaierror)
         self.opened = []
         self.count = 0
+        self.active = None            # token of the running observation
+        self.tls = threading.local()  # .obs = token of the observation this thread works for
         self._orig_init = h5py.File.__init__
         env = self
+        # S3: dclab's own S3File / is_s3_object_available run unchanged on top of an in-process
+        # object store (module-level names `boto3` and `socket` of fmt_s3 are replaced).  If that
+        # seam is not there any more (or the self test fails) S3 stays "unreachable" as before.
+        self.s3 = False
+        self._s3_saved = None
+        self.s3_problem = None
+        try:
+            from dclab.rtdc_dataset import fmt_s3
+            if not (getattr(fmt_s3, "BOTO3_AVAILABLE", False) and hasattr(fmt_s3, "boto3")
+                    and hasattr(fmt_s3, "socket")):
+                raise RuntimeError("fmt_s3 has no boto3/socket seam")
+            self._s3_saved = (fmt_s3, fmt_s3.boto3, fmt_s3.socket)
+            fmt_s3.boto3 = types.SimpleNamespace(
+                Session=lambda *a, **k: _FakeBoto3Session(env, *a, **k))
+            fmt_s3.socket = http_utils.socket
+            self.s3 = True
+        except BaseException as e:  # noqa
+            self.s3_problem = repr(e)[:160]
+        if self.s3 and ctx is not None:
+            self._s3_selftest(ctx)
+        if not self.s3 and ctx is not None:
+            ctx.note("C14: in-process S3 object store not usable on this tree "
+                     f"({self.s3_problem}); S3 treated as unreachable")
 
         def wrapped(self_, name, *a, **k):
-            if isinstance(name, (str, bytes, pathlib.Path)):
-                env.opened.append(("local", str(name)))
-                env.count += 1
-            elif hasattr(name, "url"):
-                env.opened.append(("url", str(name.url)))
-                env.count += 1
-            if env.count > OPEN_LIMIT:
-                raise TooManyOpens(f"more than {OPEN_LIMIT} datasets opened")
+            # only opens made while an observation is running are counted (the harness itself
+            # opens files when it writes a world; a worker left behind by a hung observation
+            # must not disturb later bookkeeping)
+            if env.active is not None and getattr(env.tls, "obs", None) in (None, env.active):
+                if isinstance(name, (str, bytes, pathlib.Path)):
+                    env.opened.append(("local", str(name)))
+                    env.count += 1
+                elif hasattr(name, "url"):
+                    env.opened.append(("url", str(name.url)))
+                    env.count += 1
+                if env.count > OPEN_LIMIT:
+                    raise TooManyOpens(f"more than {OPEN_LIMIT} datasets opened")
             return env._orig_init(self_, name, *a, **k)
 
         h5py.File.__init__ = wrapped
 
+    def _s3_selftest(self, ctx):
+        """an object served by the fake store opens through RTDC_S3 and is reported available by
+        S3Basin; a missing object is reported unavailable"""
+        try:
+            from dclab.rtdc_dataset import fmt_s3
+            p = ctx.workdir / "s3selftest.rtdc"
+            gen.make_rtdc(p, [1, 2, 3], feats=[KEEP], rid="R")
+            url = f"{HOST}/selftest/s3/x.rtdc"
+            self.ses.blobs[url] = p.read_bytes()
+            try:
+                with fmt_s3.RTDC_S3(url) as ds:
+                    ok = gen.tokens_of(KEEP, ds[KEEP][:], UNIV) == [1, 2, 3]
+                ok = ok and bool(fmt_s3.is_s3_object_available(url))
+                ok = ok and not fmt_s3.is_s3_object_available(f"{HOST}/selftest/s3/gone.rtdc")
+            finally:
+                self.ses.blobs.pop(url, None)
+                os.unlink(p)
+            if not ok:
+                raise RuntimeError("self test gave unexpected answers")
+        except BaseException as e:  # noqa
+            self.s3_problem = "self test: " + repr(e)[:140]
+            self._s3_restore()
+            self.s3 = False
+        finally:
+            self.opened.clear()
+            self.count = 0
+
+    def _s3_restore(self):
+        if self._s3_saved is not None:
+            mod, b3, so = self._s3_saved
+            mod.boto3, mod.socket = b3, so
+            self._s3_saved = None
+
     def close(self):
         self.h5py.File.__init__ = self._orig_init
         self.http_utils.socket = self._old_socket
+        self._s3_restore()
 
 
 # --------------------------------------------------------------------------------- worlds
@@ -181,13 +386,21 @@ class WFile:
         self.defs = []                        # dicts (see make_def)
         self.path = None
         self.shift = 0                        # changed when the file is replaced by other content
+        self.relay = False                    # basin-only file: no events of its own at all
+        self.nocount = False                  # no 'experiment:event count' attribute (the length
+        #                                       has to be derived from features / basins)
+
+    def own(self):
+        """features stored in the file itself (besides basinmaps)"""
+        return [] if self.relay else [KEEP] + list(self.innate)
 
     def tokens(self):
         return [20 * self.idx + self.shift + j for j in range(N_EV)]
 
 
 def describe_world(files):
-    return tuple((f.idx, f.dir, f.rid, f.flavour, f.shift, tuple(f.innate), tuple(sorted(f.maps.items())) and
+    return tuple((f.idx, f.dir, f.rid, f.flavour, f.shift, f.relay, f.nocount, tuple(f.innate),
+                  tuple(sorted(f.maps.items())) and
                   tuple((k, tuple(v)) for k, v in sorted(f.maps.items())),
                   tuple((d["type"], d["format"], tuple(d["locs"]), tuple(d["feats"] or ("*",)),
                          d["map"]) for d in f.defs)) for f in files)
@@ -231,7 +444,7 @@ def rand_def(rng, files, i):
     if r < 0.5:
         ty, fmt, style = "file", "hdf5", "path"
     elif r < 0.72:
-        ty, fmt, style = "remote", "http", "url"
+        ty, fmt, style = "remote", rng.choice(["http", "http", "s3"]), "url"
     elif r < 0.8:
         ty, fmt, style = "internal", "h5dataset", "internal"
     else:
@@ -275,6 +488,13 @@ def random_world(rng):
         innate = sorted(rng.sample(FEATS, rng.randint(0, 3)))
         files.append(WFile(i, rng.choice([0, 0, 0, 0, 1, 1, 2, 2, 3]), rand_rid(rng, scheme), innate,
                            rng.choice(FLAVOURS)))
+        r = rng.random()
+        if r < 0.2:
+            # basin-only relay: everything it shows comes through its basins
+            files[-1].relay, files[-1].innate = True, []
+            files[-1].nocount = rng.random() < 0.75
+        elif r < 0.3:
+            files[-1].nocount = True
     for i in range(k):
         for _ in range(rng.choice([0, 1, 1, 2, 2, 3])):
             files[i].defs.append(rand_def(rng, files, i))
@@ -427,7 +647,7 @@ class World:
             f.path = self.path_of(f)
             if f.path.exists():
                 os.unlink(f.path)        # replaced, not truncated (handles may still be open)
-            gen.make_rtdc(f.path, f.tokens(), feats=[KEEP] + f.innate, rid=f.rid)
+            gen.make_rtdc(f.path, f.tokens(), feats=f.own(), rid=f.rid)
             with dclab.RTDCWriter(f.path, mode="append") as hw:
                 for k, m in sorted(f.maps.items()):
                     hw.store_feature(f"basinmap{k}", np.array(m, dtype=np.uint64))
@@ -459,6 +679,10 @@ class World:
                     d["key"] = key
                     self.keys.setdefault(key, len(self.keys) + 1)
             with h5py.File(f.path, "a") as h5:
+                if f.relay:
+                    h5.require_group("events")
+                if f.nocount and "experiment:event count" in h5.attrs:
+                    del h5.attrs["experiment:event count"]
                 # the run identifier in every HDF5 string flavour, written with raw h5py
                 if f.rid is None:
                     for a in ("setup:identifier", "experiment:run identifier"):
@@ -482,11 +706,15 @@ class World:
         for f in self.files:
             self.env.ses.blobs[self.url_of(f)] = f.path.read_bytes()
 
+    def up(self):
+        """remote protocols that can be reached in this process"""
+        return ["http", "s3"] if self.env.s3 else ["http"]
+
     def model_lines(self):
-        lines = ["reset http"]
+        lines = ["reset " + ",".join(self.up())]
         for f in self.files:
             lines.append(f"file {f.dir} {f.idx} {rid_codes(f.rid)}")
-            for feat in [KEEP] + f.innate:
+            for feat in f.own():
                 lines.append(f"feat {FID[feat]} {L(f.tokens())}")
             for k, m in sorted(f.maps.items()):
                 lines.append(f"map {k} {L(m)}")
@@ -530,7 +758,7 @@ class World:
             """yield token lists file i (opened locally / remotely) may show for feat"""
             f = self.files[i]
             res = []
-            if feat in f.innate or feat == KEEP:
+            if feat in f.own():
                 res.append(f.tokens())
             if depth > 8:
                 return res
@@ -558,7 +786,7 @@ class World:
                                 tgt, tremote = loc[1], False
                             elif loc[0] == "rel" and self.files[loc[1]].dir == f.dir:
                                 tgt, tremote = loc[1], False
-                        elif ctype == "remote" and d["format"] == "http" and loc[0] == "url":
+                        elif ctype == "remote" and d["format"] in self.up() and loc[0] == "url":
                             tgt, tremote = loc[1], True
                         if tgt is None:
                             continue
@@ -579,7 +807,21 @@ class World:
 
 
 # --------------------------------------------------------------------------------- observation
-def observe(env, world, root_idx, remote):
+def basin_loc_name(world, fmt, location):
+    """model name of the dataset a basin object points to, `-` if nothing can be opened there"""
+    loc = str(location)
+    if fmt == "hdf5":
+        bypath = {os.path.realpath(f.path): f for f in world.files}
+        f = bypath.get(os.path.realpath(loc)) if os.path.exists(loc) else None
+        return f"a{f.dir}.{f.idx}" if f else "-"
+    if fmt in world.up():
+        byurl = {world.url_of(f): f for f in world.files}
+        f = byurl.get(loc)
+        return f"u{f.idx}" if f else "-"
+    return "-"
+
+
+def observe(env, world, root_idx, remote, vflags=()):
     """open the root and observe; returns dict"""
     dclab = common.import_dclab()
     from dclab.rtdc_dataset.fmt_http import RTDC_HTTP
@@ -587,16 +829,31 @@ def observe(env, world, root_idx, remote):
     res = {"feats": None, "in": {}, "data": {}, "errors": [], "opened": [], "time": None}
     box = {}
 
+    token = object()
+
     def work():
         ds = None
         try:
+            env.tls.obs = token
             env.opened.clear()
             env.count = 0
+            env.active = token
             n_log = len(env.ses.log)
-            if remote:
+            if remote == "s3":
+                from dclab.rtdc_dataset.fmt_s3 import RTDC_S3
+                ds = RTDC_S3(world.url_of(f))
+            elif remote:
                 ds = RTDC_HTTP(world.url_of(f))
             else:
                 ds = dclab.new_dataset(f.path)
+            try:
+                # the list `ds.basins` in order (public attributes of the basin objects only),
+                # read before any data access
+                res["basins"] = [(str(bn.basin_format), str(bn.mapping), str(bn.location))
+                                 for bn in ds.basins]
+            except BaseException as e:  # noqa
+                res["basins"] = None
+                res["basins_problem"] = repr(e)[:120]
             try:
                 res["feats"] = sorted(x for x in ds.features_basin if x in FEATS)
             except BaseException as e:  # noqa
@@ -617,6 +874,17 @@ def observe(env, world, root_idx, remote):
                     res["errors"].append((f"ds[{feat!r}]", repr(e)[:160]))
             res["opened"] = list(env.opened[1:])
             res["urls"] = sorted(set(u for (u, _r) in env.ses.log[n_log:]))
+            # histories of verify_basin calls on the basin objects of this dataset (after the
+            # data was read: the answers must not depend on what happened before)
+            res["verify"] = []
+            try:
+                for bn in list(ds.basins)[:4]:
+                    answers = [bool(bn.verify_basin(run_identifier=fl)) for fl in vflags]
+                    res["verify"].append((str(bn.basin_format), str(bn.basin_type), str(bn.mapping),
+                                          str(bn.location), answers))
+            except BaseException as e:  # noqa
+                res["verify"] = None
+                res["verify_problem"] = repr(e)[:120]
         except BaseException as e:  # noqa
             res["errors"].append(("open", repr(e)[:160]))
         finally:
@@ -628,13 +896,27 @@ def observe(env, world, root_idx, remote):
             box["done"] = True
 
     t0 = time.time()
+    c0 = time.process_time()
     th = threading.Thread(target=work, daemon=True)
     th.start()
     th.join(30)
+    # wall time alone never decides: a worker that got (almost) no CPU within the guard is the
+    # machine's load, not dclab — give it more wall time (bounded) until it either finishes or
+    # has really consumed CPU
+    extra = 0
+    while th.is_alive() and time.process_time() - c0 < 8 and extra < 6:
+        th.join(30)
+        extra += 1
     res["time"] = time.time() - t0
+    res["cpu"] = time.process_time() - c0
     res["hung"] = th.is_alive()
     res["count"] = env.count
+    env.active = None
     return res
+
+
+def fmt_name(remote):
+    return "RTDC_S3" if remote == "s3" else "RTDC_HTTP" if remote else "RTDC_HDF5"
 
 
 def opened_model_names(world, opened):
@@ -646,7 +928,8 @@ def opened_model_names(world, opened):
             f = bypath.get(os.path.realpath(name))
             out.add(f"a{f.dir}.{f.idx}" if f else f"a?:{name}")
         else:
-            f = byurl.get(name)
+            # dclab's S3File spells the endpoint with its port
+            f = byurl.get(name.replace(HOST + ":80/", HOST + "/"))
             out.add(f"u{f.idx}" if f else f"u?:{name}")
     return out
 
@@ -657,21 +940,26 @@ def check_world(ctx, env, world, roots, label):
     returns (model lines, expectations)"""
     lines, expect = [], []
     if isinstance(roots, int):
-        roots = [(roots, False), (roots, True)]
+        roots = [(roots, False), (roots, True), (roots, "s3")]
+    if not env.s3:
+        roots = [(i, True if r == "s3" else r) for (i, r) in roots]
     for step, (root_idx, remote) in enumerate(roots):
         f = world.files[root_idx]
-        obs = observe(env, world, root_idx, remote)
+        vflags = [ctx.rng.random() < 0.65 for _ in range(3)]
+        obs = observe(env, world, root_idx, remote, vflags)
         followed = bool(obs["opened"])
         canon = (describe_world(world.files), root_idx, remote)
         sample = {"world": label, "root": root_idx, "remote": remote, "feats": obs["feats"],
                   "data": {k: v for k, v in obs["data"].items() if v}, "opened": obs["opened"][:4]}
         ctx.case(canon, nontrivial=followed, sample=sample)
-        ctx.stat("root:remote" if remote else "root:local")
+        ctx.stat(f"root:{'s3' if remote == 's3' else 'http'}" if remote else "root:local")
+        if f.relay or f.nocount:
+            ctx.stat("root:relay" if f.relay else "root:no-event-count")
         ctx.stat(f"files:{len(world.files)}")
         replay = {"world": label, "root": root_idx, "remote": remote,
                   "roots": [list(r) for r in roots[:step + 1]],
                   "files": [{"idx": x.idx, "dir": x.dir, "rid": x.rid, "flavour": x.flavour,
-                             "shift": x.shift,
+                             "shift": x.shift, "relay": x.relay, "nocount": x.nocount,
                              "innate": x.innate,
                              "maps": {str(k): v for k, v in x.maps.items()},
                              "internal": x.internal,
@@ -680,8 +968,14 @@ def check_world(ctx, env, world, roots, label):
                   "observed": {"feats": obs["feats"], "data": obs["data"],
                                "opened": obs["opened"], "errors": obs["errors"]}}
         # (O3) termination
-        if obs["hung"] or obs["time"] > 10:
+        if not obs["hung"] and obs["time"] > 10 and obs["cpu"] <= 5:
+            # slow but finished, and hardly any CPU was used: load of the machine, no verdict
+            ctx.stat("slow-observation-under-load")
+            ctx.note("C14: an observation needed more than 10 s wall with little CPU (loaded "
+                     "machine); not judged by time")
+        elif obs["hung"] or obs["time"] > 10:
             ctx.violation("spec", f"opening/reading a dataset with basins took {obs['time']:.1f}s "
+                                  f"wall / {obs['cpu']:.1f}s CPU "
                                   f"(no termination within the guard)", replay)
             if obs["hung"]:
                 # the worker thread is still running inside dclab: later observations of this
@@ -701,7 +995,7 @@ def check_world(ctx, env, world, roots, label):
         local_opened = sorted(n for n in names if n.startswith("a"))
         if remote and local_opened:
             ctx.stat("oracle:remote-opened-local")
-            ctx.violation("spec", "a dataset opened through RTDC_HTTP opened local files "
+            ctx.violation("spec", f"a dataset opened through {fmt_name(remote)} opened local files "
                                   f"{[o[1] for o in obs['opened'] if o[0] == 'local'][:2]} "
                                   "through its basin definitions", replay)
         # (O4) only declared URLs are contacted (fake session log)
@@ -728,7 +1022,8 @@ def check_world(ctx, env, world, roots, label):
                     src = sorted(set(t // 20 for t in got if t is not None and t < 300))
                     srids = [world.files[s].rid for s in src if s < len(world.files)]
                     if remote and any(o[0] == "local" for o in obs["opened"]):
-                        head = "data of a local file served to a dataset opened through RTDC_HTTP"
+                        head = ("data of a local file served to a dataset opened through "
+                                + fmt_name(remote))
                     elif f.rid is not None and None in srids:
                         head = "data served from a basin file that has no run identifier"
                     else:
@@ -745,6 +1040,39 @@ def check_world(ctx, env, world, roots, label):
         expect.append({"feats": obs["feats"], "data": obs["data"], "opened": names,
                        "in": obs["in"], "innate": list(f.innate),
                        "label": label, "remote": remote, "root": root_idx, "replay": replay})
+        # order of ds.basins (exact) against `basinOrder`
+        if obs.get("basins") is None:
+            ctx.note("C14: ds.basins / public basin attributes not readable on this tree "
+                     f"({obs.get('basins_problem')}); order comparison skipped")
+        else:
+            seq = []
+            for fmt, mp, loc in obs["basins"]:
+                seq.append(f"{fmt}:{'same' if mp == 'same' else mp.replace('basinmap', '')}:"
+                           f"{basin_loc_name(world, fmt, loc)}")
+            lines.append(f"basins {'U ' + str(f.idx) if remote else 'L %d %d' % (f.dir, f.idx)}")
+            expect.append({"kind": "basins", "seq": seq, "replay": replay})
+            ctx.stat("order:basins-compared", len(seq))
+        # verify_basin histories against `runVerifyBasin`
+        if obs.get("verify") is None:
+            if obs.get("verify_problem"):
+                ctx.note("C14: verify_basin histories not observable on this tree "
+                         f"({obs.get('verify_problem')}); skipped")
+        else:
+            calls_of = lambda av: ";".join(f"{int(av)}{int(fl)}" for fl in vflags)  # noqa: E731
+            for fmt, bty, mp, loc, answers in obs["verify"]:
+                if bty == "internal":
+                    if not all(answers):
+                        ctx.violation("spec", "verify_basin of an internal basin answers False",
+                                      replay)
+                    continue
+                name = basin_loc_name(world, fmt, loc)
+                brid = "x"
+                if name != "-":
+                    brid = rid_codes(world.files[int(name[1:].split(".")[-1])].rid)
+                lines.append(f"verify {rid_codes(f.rid)} {brid} {int(mp != 'same')} "
+                             f"{calls_of(name != '-')}")
+                expect.append({"kind": "verify", "answers": answers, "replay": replay})
+                ctx.stat("verify:in-situ")
     return lines, expect
 
 
@@ -760,6 +1088,107 @@ def parse_model(ans):
     return feats, data, opened, int(parts["depth"])
 
 
+def verify_probe(ctx, env, world, label):
+    """basin objects built directly with the documented constructor arguments (file-type class,
+    any pair referrer / target of the world, unmapped or mapped, existing or dangling location):
+    a history of verify_basin calls is compared with `runVerifyBasin`.  This reaches the negative
+    answers that never show up in `ds.basins` (file-type candidates that do not verify).
+    returns (model lines, expectations)"""
+    lines, expect = [], []
+    dclab = common.import_dclab()
+    try:
+        from dclab.rtdc_dataset import feat_basin
+        cls = feat_basin.get_basin_classes()["hdf5"]
+    except BaseException as e:  # noqa
+        ctx.note(f"C14: basin classes not reachable on this tree ({e!r}); direct verify probe skipped"[:200])
+        return lines, expect
+    for _ in range(2):
+        i = ctx.rng.randrange(len(world.files))
+        j = ctx.rng.randrange(len(world.files))
+        fi, fj = world.files[i], world.files[j]
+        mapped = bool(fi.maps) and ctx.rng.random() < 0.5
+        dangling = ctx.rng.random() < 0.15
+        flags = [ctx.rng.random() < 0.65 for _ in range(3)]
+        mapping = f"basinmap{sorted(fi.maps)[0]}" if mapped else "same"
+        loc = world.root / "nowhere" / "gone.rtdc" if dangling else fj.path
+        ref = bn = None
+        try:
+            ref = dclab.new_dataset(fi.path)
+            ref.ignore_basins(list(world.keys))
+            rid = ref.get_measurement_identifier()
+            bn = cls(loc, name="probe", measurement_identifier=rid, mapping=mapping,
+                     mapping_referrer=ref, ignored_basins=list(world.keys))
+            answers = [bool(bn.verify_basin(run_identifier=fl)) for fl in flags]
+        except BaseException as e:  # noqa
+            ctx.note(f"C14: direct verify probe raised {type(e).__name__} on this tree; skipped")
+            ctx.stat("verify:direct-skipped")
+            continue
+        finally:
+            for x in (bn, ref):
+                try:
+                    if x is not None:
+                        x.close()
+                except BaseException:  # noqa
+                    pass
+        want_rid = eff_rid(fi.rid)
+        if rid != want_rid:
+            # the identifier dclab derives is part of the modelled input
+            lines.append("selftest-noop")
+            expect.append({"kind": "literal", "want": f"identifier {want_rid!r}", "got": f"{rid!r}",
+                           "replay": {"world": label, "file": i}})
+            continue
+        # property oracle, directly: a True answer to a call that asked for the identifier check
+        # means equal identifiers (prefix for mapped) unless the referrer has none
+        rb = eff_rid(fj.rid)
+        match = rid is None or (rb is not None and (rid.startswith(rb) if mapped else rid == rb))
+        if any(a and fl for a, fl in zip(answers, flags)) and not (match and not dangling):
+            ctx.violation("spec", f"verify_basin accepts a basin of another measurement or an "
+                                  f"unavailable one (referrer {rid!r}, basin {rb!r}, "
+                                  f"mapped={mapped}, exists={not dangling}, flags={flags}, "
+                                  f"answers={answers})",
+                          {"world": label, "referrer": i, "basin": j, "mapped": mapped})
+        lines.append(f"verify {rid_codes(fi.rid)} {'x' if dangling else rid_codes(fj.rid)} "
+                     f"{int(mapped)} " + ";".join(f"{int(not dangling)}{int(fl)}" for fl in flags))
+        expect.append({"kind": "verify", "answers": answers,
+                       "replay": {"world": label, "referrer": i, "basin": j, "mapped": mapped,
+                                  "dangling": dangling, "flags": flags,
+                                  "rids": [fi.rid, fj.rid]}})
+        ctx.stat("verify:direct")
+        ctx.stat(f"verify:direct:{'match' if match else 'mismatch'}")
+    return lines, expect
+
+
+def compare_answer(ex, got):
+    """None when the model's answer line agrees with the observation, else (impl, depth)"""
+    kind = ex.get("kind", "resolve")
+    if kind == "basins":
+        body = got[len("basins="):] if got.startswith("basins=") else None
+        if body is None:
+            return "parsable answer"
+        mseq = [] if body == "-" else [e.split(":", 1)[1] for e in body.split(";")]
+        return None if mseq == ex["seq"] else f"ds.basins order={ex['seq']}"
+    if kind == "literal":
+        return f"{ex['got']} (expected {ex['want']})"
+    if kind == "verify":
+        want = "res=" + ",".join(str(int(a)) for a in ex["answers"])
+        return None if got == want else f"verify_basin answers {want}"
+    try:
+        mfeats, mdata, mopened, depth = parse_model(got)
+    except Exception:
+        return "parsable answer"
+    ex["depth"] = depth
+    ifeats = ex["feats"] if not isinstance(ex["feats"], list) else sorted(FID[x] for x in ex["feats"])
+    idata = {FID[k]: v for k, v in ex["data"].items() if v is not None}
+    want_in = {k: (k in ex["innate"] or FID[k] in mfeats) for k in FEATS}
+    if ifeats != mfeats or idata != mdata:
+        return f"feats={ifeats} data={idata}"
+    if ex["in"] != want_in:
+        return f"in={ex['in']}"
+    if not ex["opened"] <= mopened:
+        return f"opened={sorted(ex['opened'])}"
+    return None
+
+
 def all_worlds(ctx):
     """yield (label, files, root)"""
     for label, files, root in targeted_worlds():
@@ -770,7 +1199,7 @@ def all_worlds(ctx):
         for bits in range(2 ** len(pairs)):
             edges = [p for n, p in enumerate(pairs) if bits >> n & 1]
             yield f"graph3-{bits}", graph_world(ctx.rng, k, edges), 0
-    for n in range(ctx.n(330, 3300)):
+    for n in range(ctx.n(250, 2500)):
         files = random_world(ctx.rng)
         yield f"rand{n}", files, random_roots(ctx.rng, files)
 
@@ -781,18 +1210,21 @@ def random_roots(rng, files):
     k = len(files)
     roots = [(rng.randrange(k), False) for _ in range(min(k, 4))]
     roots.insert(rng.randrange(len(roots) + 1), (rng.randrange(k), True))
+    roots.insert(rng.randrange(len(roots) + 1), (rng.randrange(k), "s3"))
     return roots
 
 
 def run(ctx):
-    env = Env()
+    env = Env(ctx)
     all_lines, all_expect = [], []
     try:
         for tag, (label, files, root) in enumerate(all_worlds(ctx)):
             if getattr(ctx, "hung", False):
                 ctx.note("C14: exploration stopped after a non-terminating open")
                 break
-            if time.time() - ctx.t0 > (110 if not ctx.thorough else 800):
+            if (time.time() - ctx.t0 > (110 if not ctx.thorough else 800)
+                    and not os.environ.get("VERIF_NO_WALL_GUARD")):
+                # (VERIF_NO_WALL_GUARD=1: explore the full seeded case list on a loaded machine)
                 ctx.note(f"C14: wall budget reached after {tag} worlds")
                 break
             world = World(ctx, env, tag, files)
@@ -805,6 +1237,10 @@ def run(ctx):
             lines, expect = check_world(ctx, env, world, root, label)
             all_lines += ml + lines
             all_expect += [None] * len(ml) + expect
+            if not getattr(ctx, "hung", False):
+                lines, expect = verify_probe(ctx, env, world, label)
+                all_lines += lines
+                all_expect += expect
             if label.startswith("rand") and ctx.rng.random() < 0.3 and not getattr(ctx, "hung", False):
                 # mutable file world: one file is replaced in place by another measurement (other
                 # identifier / flavour, other data), then referrers are opened again in this
@@ -839,21 +1275,10 @@ def run(ctx):
             if got != "ok":
                 diffs.append((ln, "ok", got, None))
             continue
-        try:
-            mfeats, mdata, mopened, depth = parse_model(got)
-        except Exception:
-            diffs.append((ln, "parsable answer", got, ex["replay"]))
-            continue
-        maxdepth = max(maxdepth, depth)
-        ifeats = ex["feats"] if not isinstance(ex["feats"], list) else sorted(FID[x] for x in ex["feats"])
-        idata = {FID[k]: v for k, v in ex["data"].items() if v is not None}
-        want_in = {k: (k in ex["innate"] or FID[k] in mfeats) for k in FEATS}
-        if ifeats != mfeats or idata != mdata:
-            diffs.append((ln, f"feats={ifeats} data={idata}", got, ex["replay"]))
-        elif ex["in"] != want_in:
-            diffs.append((ln, f"in={ex['in']}", got, ex["replay"]))
-        elif not ex["opened"] <= mopened:
-            diffs.append((ln, f"opened={sorted(ex['opened'])}", got, ex["replay"]))
+        bad = compare_answer(ex, got)
+        maxdepth = max(maxdepth, ex.get("depth", 0))
+        if bad is not None:
+            diffs.append((ln, bad, got, ex["replay"]))
     ctx.stat("model:max-depth", maxdepth)
     if diffs and not any(v["kind"] == "spec" for v in ctx.violations):
         extended_search(ctx)
@@ -871,7 +1296,7 @@ def run(ctx):
 def extended_search(ctx, seconds=60):
     """the model and the implementation differ but no property oracle failed: look for a failing
     input on the implementation alone with a larger budget (DESIGN section 4, case B)"""
-    env = Env()
+    env = Env(ctx)
     t0 = time.time()
     n = 0
     try:
@@ -903,15 +1328,18 @@ def replay(ctx, data):
     for x in rp["files"]:
         f = WFile(x["idx"], x["dir"], x["rid"], x["innate"], x.get("flavour", "vlen"))
         f.shift = x.get("shift", 0)
+        f.relay, f.nocount = bool(x.get("relay")), bool(x.get("nocount"))
         f.maps = {int(k): v for k, v in x["maps"].items()}
         f.internal = x["internal"]
         f.defs = [dict(d, locs=[tuple(z) for z in d["locs"]]) for d in x["defs"]]
         files.append(f)
-    env = Env()
+    env = Env(ctx)
     try:
         world = World(ctx, env, 0, files)
         world.write()
         roots = [tuple(r) for r in rp.get("roots") or [(rp["root"], False), (rp["root"], True)]]
+        if not env.s3:
+            roots = [(i, True if r == "s3" else r) for (i, r) in roots]
         lines, expect = check_world(ctx, env, world, roots, rp.get("world", "replay"))
         ml = world.model_lines()
     finally:
@@ -923,10 +1351,8 @@ def replay(ctx, data):
     if ctx.lean_ok:
         out = ctx.lean("C14", ml + lines)
         for ex, got in zip(expect, out[len(ml):]):
-            mfeats, mdata, mopened, _ = parse_model(got)
-            ifeats = ex["feats"] if not isinstance(ex["feats"], list) else sorted(FID[x] for x in ex["feats"])
-            idata = {FID[k]: v for k, v in ex["data"].items() if v is not None}
-            if ifeats != mfeats or idata != mdata or not ex["opened"] <= mopened:
-                print("   model differs:", got)
+            bad = compare_answer(ex, got)
+            if bad is not None:
+                print("   model differs:", bad, "<>", got)
                 return True
     return False
